@@ -946,6 +946,28 @@ func coreCases() []Case {
 	add("single-data-max", sOCI, "reg", "same-newtag", Opt{Kind: "data-max", N: 1 << 20})
 	add("single-data-strip", sInline, "reg", "same-digest", Opt{Kind: "data-max", N: 0})
 	add("single-data-refresh", sInline, "reg", "other-reg", Opt{Kind: "layer-compress", S1: "zstd"}, Opt{Kind: "env", S1: "NEW", S2: "1"})
+	// an uncompressed layer that the source manifest carries inline, rewritten by a step that keeps its length
+	// (tar headers have a fixed size): the descriptor changes its digest and nothing else, the inline data has to
+	// be that of the new content
+	inlineRaw := func(s *Source) bool {
+		if s.UniformTime || s.Index {
+			return false
+		}
+		for _, im := range s.Images {
+			for _, l := range im.Layers {
+				if l.Inline && l.Comp == "none" && !l.Empty {
+					return true
+				}
+			}
+		}
+		return false
+	}
+	from = 1000
+	for k := 0; k < 3; k++ {
+		sIR := findSeed(from, inlineRaw)
+		from = sIR + 1
+		add("inline-uncompressed-layer-rewritten-in-place", sIR, "reg", []string{"same-digest", "other-repo", "layout"}[k], Opt{Kind: "layer-time", Set: "2022-01-01T00:00:00Z"})
+	}
 	add("rm-first-layer", sOCI, "reg", "same-digest", Opt{Kind: "layer-rm-index", N: 0})
 	add("rm-last-layer", sOCI, "reg", "other-repo", Opt{Kind: "layer-rm-index", N: 2})
 	add("rm-two-layers", sOCI, "reg", "same-newtag", Opt{Kind: "layer-rm-index", N: 1}, Opt{Kind: "layer-rm-index", N: 0})
